@@ -40,7 +40,8 @@ def instances(tier):
                       default_unwind=3, encoded_units=rc.ENC, fp_removal=True, replay_units=rc.REPLAY_UNITS, object_bits=12, timeout=3000))
     for mode in ("FLIP1", "BURST", "TRUNC", "EXTEND"):
         out.append(mk("c07_%s" % mode.lower(), "C07/c07.c", rc.UNITS, dict(D, **{"MODE_" + mode: None}), unwind=UW,
-                      default_unwind=3, encoded_units=rc.ENC, fp_removal=True, replay_units=rc.REPLAY_UNITS, object_bits=12, timeout=3000))
+                      default_unwind=3, encoded_units=rc.ENC, fp_removal=True, replay_units=rc.REPLAY_UNITS, object_bits=12, timeout=3000,
+                      kf_keys=(["burst_hdcrc_boundary"] if mode == "BURST" else [])))
     if tier == "quick":
         out.append(mk("c07_flip2", "C07/c07.c", rc.UNITS, dict(D, MODE_FLIP2=None), unwind=UW,
                       default_unwind=3, encoded_units=rc.ENC, fp_removal=True, replay_units=rc.REPLAY_UNITS, object_bits=12, timeout=3000))
